@@ -77,6 +77,25 @@ CLAIMED = {
               "C06_clock_full_fails is a kernel-checked counterexample with both clocks not later than the project start (finding KF-S6-C06, "
               "replayed on every run). " + SCHED_TIE),
         design='6 (C06)', technique='Lean 4 proof (clock-independence by simulation) + kernel-checked counterexample + differential correspondence with repeated calls'),
+    'C08': dict(
+        text=("PARTIAL. Proved for every input of the model: C08_noIdle_partial - with balancing on, every day from a leaf's release day (latest "
+              "of project start, clock, min_start, prerequisite ends) up to, excluding, its last work day is fully booked on its resource in the "
+              "final ledger, when no task that has children carries a link (finding KF-S3-C08 otherwise; also assumes dates not before 1970, the "
+              "code's floor for a missing min_start); C08_encode_partial - start = first work day's midnight + share booked before the task, end = "
+              "last work day's midnight + share booked up to and including it, when every clock reading lies on a day before the project start day "
+              "(finding KF-S6-C08 for a clock on the start day); C08_order - leaves that take part in no dependency get capacity in WBS order (full). "
+              "Both full statements have kernel-checked counterexamples (C08_*_full_fails) replayed on the implementation. The last clause (dates do "
+              "not change when unrelated tasks are removed, balancing off) has no theorem and rests on the correspondence stream's removal pairs. "
+              + SCHED_TIE),
+        design='6 (C08)', technique='Lean 4 proof (fill-loop tightness + ledger monotonicity) of partial statements + counterexamples + differential correspondence'),
+    'C09': dict(
+        text=("PARTIAL. Proved for every WBS without user-fixed dates: C09_deadline (no task ends after the project end), C09_encode (start = midnight "
+              "following the first work day minus the share booked up to and including the task; end = midnight following its day minus the share "
+              "booked before it was placed); C09_partial - every dependency between member tasks, declared or inherited, has predecessor end <= "
+              "successor start, and with balancing on the schedule is late-packed, when no task that has children carries a link (finding "
+              "KF-S2-C09, kernel-checked counterexample C09_full_fails replayed on every run) and outside link partners are leaves. "
+              + SCHED_TIE),
+        design='6 (C09)', technique='Lean 4 proof (backward pass invariant) of partial statements + counterexample + differential correspondence'),
     'C14': dict(
         text=("Theorems C14_forward / C14_backward: for every WBS satisfying the structural invariants (forest stored on both ends, symmetric links; "
               "what C01 guarantees) and every resource set whose calendars do not raise, calc in the model ends in a schedule or RuntimeError - "
